@@ -21,7 +21,7 @@ import torch
 from lib.core import Ctx, run_check
 from lib.tlc import MachineryError, require_actions
 
-QUICK = ["q_h1t3", "q_h2t2", "q_h1t2", "q_h2t3"]
+QUICK = ["q_h1t3", "q_h2t2", "q_h1t2", "q_h2t3", "q_h1t1", "q_h2t1"]      # T = 1: one time point, no trade after the opening one
 THOROUGH = QUICK + ["t_h1t4", "t_h2t3", "t_h3t2"]
 
 SCALES = [(0, 0, 0), (-7, 5, -10), (6, -3, -4), (-3, -3, 0)]
